@@ -272,6 +272,25 @@ pub fn ops_vprocs() -> Vec<(&'static str, fn(&mut VotingProcedures, &mut G) -> E
          ("insert_existing_voter", |x, g| { let vs = x.get_voters(); let v = if vs.len() > 0 { vs.get(0).unwrap() } else { api::voter(g) }; x.insert(&v, &api::gov_action_id(g), &api::voting_procedure(g)); eff(vec![]) })]
 }
 
+// ---------------- FixedTransaction: a decoded transaction that keeps its original bytes, witnesses added afterwards ----------------
+pub fn d_fixed_tx(x: &FixedTransaction) -> Dig {
+    vec![("raw_body", hex::encode(x.raw_body())), ("body", format!("{:?}", d_body(&x.body()))), ("witness_set", format!("{:?}", d_ws(&x.witness_set()))),
+         ("is_valid", format!("{}", x.is_valid())), ("raw_auxiliary_data", x.raw_auxiliary_data().map(hex::encode).unwrap_or("~".into())),
+         ("tx_hash", x.transaction_hash().to_hex())]
+}
+fn has_item(list: &str, item: &str) -> String { format!("{}", list.split(',').any(|i| i == item)) }
+pub fn ops_fixed_tx() -> Vec<(&'static str, fn(&mut FixedTransaction, &mut G) -> Eff)> {
+    vec![("add_vkey_witness", |x, g| { let w = api::vkeywitness(g); let n = x.witness_set().vkeys().map(|v| v.len()).unwrap_or(0); x.add_vkey_witness(&w);
+            let v = x.witness_set().vkeys().unwrap(); assert!(v.len() == n + 1 && has_item(&items!(v), &hx!(w)) == "true", "witness not added"); eff(vec![]) }),
+         ("add_bootstrap_witness", |x, g| { let w = api::bootstrap_witness(g); let n = x.witness_set().bootstraps().map(|v| v.len()).unwrap_or(0); x.add_bootstrap_witness(&w);
+            let v = x.witness_set().bootstraps().unwrap(); assert!(v.len() == n + 1 && has_item(&items!(v), &hx!(w)) == "true", "witness not added"); eff(vec![]) }),
+         ("add_both", |x, g| { x.add_bootstrap_witness(&api::bootstrap_witness(g)); x.add_vkey_witness(&api::vkeywitness(g)); x.add_bootstrap_witness(&api::bootstrap_witness(g)); eff(vec![]) }),
+         ("set_is_valid", |x, g| { let v = g.below(2) == 0; x.set_is_valid(v); eff(vec![("is_valid", format!("{}", v))]) }),
+         ("set_witness_set", |x, g| { let w = api::witness_set(g); x.set_witness_set(&w.to_bytes()).unwrap(); eff(vec![("witness_set", format!("{:?}", d_ws(&w)))]) }),
+         ("set_body", |x, g| { let b = api::tx_body(g); x.set_body(&b.to_bytes()).unwrap(); eff(vec![("raw_body", hex::encode(b.to_bytes()))]) }),
+         ("set_auxiliary_data", |x, g| { let a = api::auxiliary_data(g); x.set_auxiliary_data(&a.to_bytes()).unwrap(); eff(vec![("raw_auxiliary_data", hex::encode(a.to_bytes()))]) })]
+}
+
 // ---------------- re-framed variants of the source bytes ----------------
 /// A minimal CBOR item tree, enough to re-frame well-formed input.
 enum Item { Head(u8, u64, Vec<u8>), Bytes(u8, Vec<u8>, Vec<Vec<u8>>, bool), Arr(Vec<Item>, bool), Map(Vec<(Item, Item)>, bool), Tag(u64, Box<Item>), Simple(Vec<u8>) }
